@@ -28,6 +28,8 @@
 (*   SortSkipsText       sort_depths permutes vertices, cells and the NumericData children only   *)
 (*                       (drillhole.py:714-719): text values stay where they were and are now     *)
 (*                       attached to other depths.                                               *)
+(*   MidCallDepthShort   a depth set that follows a from-to set inside ONE add_data call merges into   *)
+(*                       a DEPTH array that is shorter than the vertex list (see AddDepth).           *)
 (*   TextMatchTruncated  validate_interval_data builds the no-data array for text as              *)
 (*                       np.array([""] * n_cells), dtype <U1 (drillhole.py:577-578); a text       *)
 (*                       value matched to an existing interval is cut to its first character.     *)
@@ -36,20 +38,30 @@
 EXTENDS SurveyPath, FiniteSets, TLC, TLCExt, Json, IOUtils
 
 CONSTANTS
-    MaxAdds,      \* number of add_data calls in a history
+    MaxAdds,      \* number of data sets in a history (one set = one name of an add_data dictionary)
+    MaxSets,      \* largest number of data sets handed to ONE add_data call (sort_depths runs once, after
+                  \* the last set of the call, drillhole.py:400-447)
     Ticks,        \* depth values in thousandths, e.g. {1000, 1004, 2000, 3000}
-    MaxLen,       \* largest number of depths / intervals per call
+    MaxLen,       \* largest number of depths per set
+    MaxLenI,      \* largest number of intervals per set
     Tols,         \* collocation distances in thousandths, e.g. {1, 10}
     Kinds,        \* subset of {"float", "text"}
     Assocs,       \* subset of {"V", "C"} : depth data / interval data
     Deviations    \* named deviations switched on by the cfg (the harness adds more through the
                   \* environment: C18_DEV_<name>=1, see EnvDevs)
 
-VARIABLES verts, hasDepth, depthArr, cells, hasFT, ft, data, added, last
-vw == <<verts, hasDepth, depthArr, cells, hasFT, ft, data, added>>
+VARIABLES verts, hasDepth, depthArr, cells, hasFT, ft, data, added, inCall, callTol, dshort, calls, last
+\* inCall  = number of sets of the add_data call in progress (0 between calls; the harness observes
+\*           the object only between calls), callTol = its collocation distance
+\* dshort  = how many entries the stored DEPTH array is shorter than the vertex list (see
+\*           MidCallDepthShort; always 0 in the ideal specification and between calls)
+\* calls   = ghost: the `more` flag of every set so far, so that histories which differ only in how
+\*           the sets were grouped into calls stay distinct paths of the exported graph (the object
+\*           may hide state the model does not have, e.g. cached arrays)
+vw == <<verts, hasDepth, depthArr, cells, hasFT, ft, data, added, inCall, callTol, dshort, calls>>
 vars == <<vw, last>>
 
-AllDevs == {"SortSkipsText", "TextMatchTruncated"}
+AllDevs == {"SortSkipsText", "TextMatchTruncated", "MidCallDepthShort"}
 EnvDevs == {d \in AllDevs : ("C18_DEV_" \o d) \in DOMAIN IOEnv}
 Devs == Deviations \cup EnvDevs
 
@@ -74,7 +86,7 @@ InjSeqs(S, n) == UNION {{s \in [1..m -> S] : \A i, j \in 1..m : i # j => s[i] # 
 DepthArgs(tol) == {s \in InjSeqs(Ticks, MaxLen) :
                       \A i, j \in DOMAIN s : i # j => ~Near1(s[i], s[j], tol)}
 Intervals == {p \in Ticks \X Ticks : p[2] - p[1] >= 100}
-IntervalArgs(tol) == {s \in InjSeqs(Intervals, MaxLen) :
+IntervalArgs(tol) == {s \in InjSeqs(Intervals, MaxLenI) :
                          \A i, j \in DOMAIN s : i # j => ~Near2(s[i], s[j], tol)}
 
 \* ---------------------------------------------------------------- sort_depths (drillhole.py:700-726)
@@ -106,12 +118,23 @@ SortDepths(s) ==     \* s = [verts, depthArr, cells, data] after the addition, D
 Padded(dt, nv, nc) == [k \in 1..Len(dt) |->
                           [dt[k] EXCEPT !.vals = @ \o Rep(NaN, IF dt[k].assoc = "V" THEN nv ELSE nc)]]
 
-Commit(s, k, assoc, kind, tol, at, toks) ==
+\* a set may be followed by another one of the same call (more) as long as the bounds allow
+CallOK(tol, more) ==
+    /\ Len(data) < MaxAdds
+    /\ inCall > 0 => tol = callTol                         \* one collocation_distance per call
+    /\ more => (inCall + 1 < MaxSets /\ Len(data) + 1 < MaxAdds)
+
+\* s0 = arrays after the set; sort_depths only after the last set of the call
+Commit(s0, more, k, assoc, kind, tol, at, toks) ==
+    LET s == IF more \/ ~hasDepth' THEN s0 ELSE SortDepths(s0) IN
     /\ verts' = s.verts /\ depthArr' = s.depthArr /\ cells' = s.cells /\ data' = s.data
+    /\ inCall' = (IF more THEN inCall + 1 ELSE 0) /\ callTol' = (IF more THEN tol ELSE 0)
+    /\ calls' = Append(calls, more)
     /\ added' = added \cup {[k |-> k, assoc |-> assoc, kind |-> kind, at |-> at[j], tol |-> tol, tok |-> toks[j]]
                             : j \in DOMAIN at}
     /\ last' = [act |-> IF assoc = "V" THEN "AddDepth" ELSE "AddInterval",
-                args |-> [name |-> k, kind |-> kind, tol |-> tol, at |-> at, toks |-> toks], out |-> "ok"]
+                args |-> [name |-> k, kind |-> kind, tol |-> tol, at |-> at, toks |-> toks, more |-> more],
+                out |-> "ok"]
 
 \* ---------------------------------------------------------------- add_data with a "depth" key
 \* rows of the mapping match_values(head, <<b>>) returns for one query depth b (utils.py:168-177):
@@ -125,29 +148,37 @@ MatchRows(head, b, tol) ==
         cand == <<si[p0 + 1], si[IF p0 = 0 THEN n ELSE p0]>>
     IN  SelectSeq(cand, LAMBDA a : Near1(head[a], b, tol))
 
-AddDepth(kind, tol, ds) ==
+\* MidCallDepthShort (as built): a from-to set appends vertices but leaves the stored DEPTH array
+\* as it is; it is padded only by the re-sort at the end of the call (or when read from the file).
+\* A depth set that follows in the SAME call merges into the short array
+\* (validate_depth_data assumes len(self.depths.values) = n_vertices, drillhole.py:637-650): the new
+\* depths are written at the indices of the interval vertices and the vertices created for them
+\* get no depth.  head = the stored array.
+AddDepth(kind, tol, ds, more) ==
     LET k == Len(data) + 1
         m == Len(ds)
         n == Len(verts)
         toks == [j \in 1..m |-> Tok(k, j)]
-        rows == [j \in 1..m |-> IF hasDepth THEN MatchRows(depthArr, ds[j], tol) ELSE <<>>]
+        head == IF hasDepth THEN SubSeq(depthArr, 1, n - dshort) ELSE <<>>
+        rows == [j \in 1..m |-> IF hasDepth THEN MatchRows(head, ds[j], tol) ELSE <<>>]
         unm == SelectSeq([j \in 1..m |-> j], LAMBDA j : rows[j] = <<>>)    \* np.delete(depth, indices[:, 1])
         hits(a) == {j \in 1..m : a \in Range(rows[j])}
         headVals == [a \in 1..n |-> IF hits(a) = {} THEN NaN ELSE toks[Max(hits(a))]]  \* head[a] = tail[b], last wins
         s0 == [verts |-> verts \o Pick(ds, unm),                                \* add_vertices(desurvey(...))
-               depthArr |-> (IF hasDepth THEN depthArr ELSE Rep(NaN, n)) \o Pick(ds, unm),   \* :630-632, :650
+               depthArr |-> (IF hasDepth THEN head ELSE Rep(NaN, n)) \o Pick(ds, unm) \o Rep(NaN, dshort), \* :630-632, :650
+                                                      \* (the values setter pads at the end, numeric_data.py:83-86)
                cells |-> cells,
                data |-> Append(Padded(data, Len(unm), 0),
                                [assoc |-> "V", kind |-> kind, vals |-> headVals \o Pick(toks, unm)])]
     IN  /\ "V" \in Assocs
-        /\ Len(data) < MaxAdds
+        /\ CallOK(tol, more)
         /\ ds \in DepthArgs(tol)
         /\ kind = "text" => unm = [j \in 1..m |-> j]          \* not modelled: text merged into existing depths
-        /\ hasDepth' = TRUE /\ UNCHANGED <<hasFT, ft>>
-        /\ Commit(SortDepths(s0), k, "V", kind, tol, [j \in 1..m |-> <<ds[j]>>], toks)
+        /\ hasDepth' = TRUE /\ dshort' = 0 /\ UNCHANGED <<hasFT, ft>>
+        /\ Commit(s0, more, k, "V", kind, tol, [j \in 1..m |-> <<ds[j]>>], toks)
 
 \* ---------------------------------------------------------------- add_data with a "from-to" key
-AddInterval(kind, tol, ivs) ==
+AddInterval(kind, tol, ivs, more) ==
     LET k == Len(data) + 1
         m == Len(ivs)
         n == Len(verts)
@@ -167,18 +198,19 @@ AddInterval(kind, tol, ivs) ==
                data |-> Append(Padded(data, Len(uni), Len(unm)),
                                [assoc |-> "C", kind |-> kind, vals |-> headVals \o Pick(toks, unm)])]
     IN  /\ "C" \in Assocs
-        /\ Len(data) < MaxAdds
+        /\ CallOK(tol, more)
         /\ ivs \in IntervalArgs(tol)
         /\ hasFT' = TRUE /\ ft' = ft \o Pick(ivs, unm) /\ UNCHANGED hasDepth      \* :534-553, :595-600
-        /\ Commit(IF hasDepth THEN SortDepths(s0) ELSE s0, k, "C", kind, tol, ivs, toks)
+        /\ dshort' = (IF more /\ hasDepth /\ "MidCallDepthShort" \in Devs THEN dshort + Len(uni) ELSE 0)
+        /\ Commit(s0, more, k, "C", kind, tol, ivs, toks)
 
 \* ---------------------------------------------------------------- behaviour
 Init == /\ verts = <<>> /\ hasDepth = FALSE /\ depthArr = <<>> /\ cells = <<>> /\ hasFT = FALSE
-        /\ ft = <<>> /\ data = <<>> /\ added = {}
+        /\ ft = <<>> /\ data = <<>> /\ added = {} /\ inCall = 0 /\ callTol = 0 /\ dshort = 0 /\ calls = <<>>
         /\ last = [act |-> "Init", args |-> <<>>, out |-> "ok"]
-Next == \E kind \in Kinds, tol \in Tols :
-           \/ \E ds \in DepthArgs(tol) : AddDepth(kind, tol, ds)
-           \/ \E ivs \in IntervalArgs(tol) : AddInterval(kind, tol, ivs)
+Next == \E kind \in Kinds, tol \in Tols, more \in BOOLEAN :
+           \/ \E ds \in DepthArgs(tol) : AddDepth(kind, tol, ds, more)
+           \/ \E ivs \in IntervalArgs(tol) : AddInterval(kind, tol, ivs, more)
 Spec == Init /\ [][Next]_vars
 
 \* ---------------------------------------------------------------- properties (C18)
@@ -219,7 +251,7 @@ ValuesAttached == Lost = {} /\ Stray = {}
 
 \* ---------------------------------------------------------------- export
 Obs == [verts |-> verts, hasDepth |-> hasDepth, depth |-> depthArr, cells |-> cells, ft |-> ft,
-        data |-> data,
+        data |-> data, inCall |-> inCall,
         aligned |-> ArraysAligned, vertexAtDepth |-> VertexAtDepth, cellsJoin |-> CellsJoin,
         lost |-> {[k |-> a.k, tok |-> a.tok, assoc |-> a.assoc, kind |-> a.kind] : a \in Lost},
         stray |-> {[k |-> p[1], kind |-> data[p[1]].kind, assoc |-> data[p[1]].assoc] : p \in Stray}]
